@@ -390,6 +390,40 @@ def _may_be_none(t) -> bool:
     return False
 
 
+def _starts_as_none(interp, ci, attr: str) -> bool:
+    init = ci.methods.get("__init__")
+    if init is None:
+        return False
+    from ..sym import const
+    rec = interp.run(ci.module, init, self_cls=ci)
+    vals = [e.value for e in rec.effects if e.kind == "attr-store" and e.key == attr]
+    return bool(vals) and any(v == const(None) for v in vals)
+
+
+def _established_not_none(pc, tz) -> bool:
+    from ..sym import const, T
+    from .. import render, guards
+    a_ = guards.assumptions(pc)
+    if render.assume_lookup(a_, T("cmp", ("is", tz, const(None)))) is False or render.assume_lookup(a_, tz) is True:
+        return True
+    for c, pol in pc:
+        atom, apol = render.norm_bool(c)
+        eff = pol if apol else not pol
+        if atom == tz and eff:
+            return True
+        if atom.op == "call" and atom.a[0] == T("builtin", ("all",)) and len(atom.a[1]) == 1 and eff \
+                and atom.a[1][0].op in ("tuple", "list") and tz in atom.a[1][0].a[0]:
+            return True             # all((..., tz)) holds: tz is truthy
+        if atom.op == "cmp" and atom.a[0] == "is" and {atom.a[1], atom.a[2]} == {tz, const(None)} and not eff:
+            return True
+        if atom.op == "cmp" and atom.a[0] == "in" and atom.a[1] == const(None) and atom.a[2].op in ("tuple", "list", "set") \
+                and tz in atom.a[2].a[0] and not eff:
+            return True
+        if atom.op == "cmp" and atom.a[0] == "==" and {atom.a[1], atom.a[2]} == {tz, const(None)} and not eff:
+            return True
+    return False
+
+
 def check_host_timezone(repo: Repo, run: Run) -> None:
     """R3: a datetime is converted with the time zone the expression is given; with no zone, or with None, datetime uses the
     zone of the machine the tool runs on.  Every `.astimezone(...)` / `datetime.fromtimestamp(...)` in the package is looked
@@ -421,6 +455,10 @@ def check_host_timezone(repo: Repo, run: Run) -> None:
                 tz = c.args[pos] if len(c.args) > pos else kw.get("tz")
                 n += 1
                 ok = tz is not None and not _may_be_none(tz)
+                if ok and tz.op == "attr" and tz.a[0] == sym.param("self") and ci is not None and _starts_as_none(interp, ci, tz.a[1]):
+                    # a setting of the object that is None until the caller supplies it: the conversion must sit on a path that
+                    # has established it is not None (`if None in (..., self.timezone): return ...` / `if self.timezone is None`)
+                    ok = _established_not_none(c.pc, tz)
                 run.ob("R3", mod.name, qn, f"{meth}: explicit time zone", ok,
                        "" if ok else
                        f"{meth}() at line {c.lineno} is " + ("called without a time zone" if tz is None else
